@@ -147,7 +147,7 @@ def oracle(ctx, deep):
             continue
         order, titles, rest = wlgen.parse_pre(a)
         head = rest.split(" ")
-        line = wlgen.wlgen_line(c["list"], c["length"], c["sep"], c["cap"], c["budget"], c["words"], shadow=c.get("shadow"))
+        line = wlgen.case_line(c)
         base = {"case": c["meta"], "line": line, "observed": a}
         if head[0] == "panic" and head[1] != "prng":
             ctx.violations.append(dict(base, finding_key="C13-panic", what="WLRecipe.Generate panicked (%s)" % head[1]))
